@@ -18,6 +18,7 @@ Oracle: every output file of every run is byte-identical to the reference run's.
 A violation is minimised to the smallest set of sites whose order matters (delta debugging
 over VERIF_SITES with the failing seed) and filed as a replay file.
 """
+import errno
 import hashlib
 import json
 import os
@@ -26,6 +27,7 @@ import shutil
 import subprocess
 import sys
 import tempfile
+import threading
 import time
 
 from . import build, checks
@@ -278,6 +280,9 @@ def combo_files(info, schema, workdir):
     return [ab(f) for f in files], [ab(p) for p in paths]
 
 
+_RELOCATE_LOCK = threading.Lock()
+
+
 def generate(info, combo, mapmode, sites, outdir, workdir, keep=False, relocate=False):
     """Runs one generation in a fresh process. Returns (rc, {relpath: sha256}, stats, stderr_tail).
     keep: write into outdir as it is (files of an earlier generation are still there);
@@ -293,8 +298,17 @@ def generate(info, combo, mapmode, sites, outdir, workdir, keep=False, relocate=
         os.makedirs(d, exist_ok=True)
         for k in ("generator", "proto_generator"):
             dst = os.path.join(d, "renamed-" + os.path.basename(info[k]))
-            if not os.path.exists(dst):
-                shutil.copy2(info[k], dst)
+            with _RELOCATE_LOCK:
+                if not os.path.exists(dst):
+                    # a hard link gives the binary another path without ever holding it open for
+                    # writing (a copy being written while another worker thread forks can still be
+                    # open for writing in that child when it is executed: ETXTBSY)
+                    try:
+                        os.link(info[k], dst)
+                    except OSError:
+                        tmp = dst + ".part"
+                        shutil.copy2(info[k], tmp)
+                        os.rename(tmp, dst)
             info[k] = dst
     if tool == "go":
         flags = list(GO_FLAGSETS[flagset])
@@ -326,7 +340,14 @@ def generate(info, combo, mapmode, sites, outdir, workdir, keep=False, relocate=
     else:
         env.pop("VERIF_SITES", None)
     try:
-        p = subprocess.run(cmd, cwd=workdir, env=env, stdout=subprocess.PIPE, stderr=subprocess.PIPE, text=True, timeout=900)
+        for attempt in range(50):
+            try:
+                p = subprocess.run(cmd, cwd=workdir, env=env, stdout=subprocess.PIPE, stderr=subprocess.PIPE, text=True, timeout=900)
+                break
+            except OSError as e:
+                if e.errno != errno.ETXTBSY or attempt == 49:
+                    raise
+                time.sleep(0.1)  # harness trouble, not the generator's: the binary was still open for writing somewhere
     except subprocess.TimeoutExpired:
         return -9, {}, {}, "generator process did not finish within 900 s"
     digests = {}
